@@ -40,6 +40,9 @@ def cases(tier):
         yield {"gs": list(gs), "tier": tier}
     for name, pos, g in ms.special_graphs():
         yield {"gs": ms.explicit(g), "pos": pos, "name": name, "tier": tier}
+    for name, pos, g in ms.special_graphs():
+        if tier == "thorough" or pos == "GENERIC" or "fork8" in name:
+            yield {"gs": ms.explicit(g), "pos": pos, "name": name, "tier": tier, "wide": True}
 
 
 class Level:
@@ -95,6 +98,10 @@ def observe(mp, c, trace, hist):
     return m, (type(r[0]).__name__,) + ms.canon(m, r, nd=12)
 
 
+WIDE = [dict(fam="SN", ne=True, avoid=True, width=None), dict(fam="SN", ne=True, avoid=False, width=None, min_prob_norm=0.1),
+        dict(fam="S", ne=True, avoid=True, width=None, max_dist=2.5), dict(fam="D", ne=True, avoid=True, width=None, min_prob_norm=0.1)]
+
+
 def run_case(case):
     res = dict(n=0, st=0, tr=0, tv=0, nt=0, out=[], v=[], k=[])
     outs = set()
@@ -103,7 +110,12 @@ def run_case(case):
     egraph = ms.explicit(graph)
     mp = maps.inmem(graph)
     cfgs = [case["cfg"]] if "cfg" in case else CFGS
-    for trace in trace_list(case, graph, pos):
+    todo = [(t, cfgs) for t in trace_list(case, graph, pos)]
+    if case.get("wide") and "trace" not in case:
+        # named graphs: all traces that span the graph (pairs and jumping triples), with the non-emitting configurations whose
+        # DEBUG-only code paths (stopped candidates inside the non-emitting search) they reach
+        todo = [(t, WIDE) for t in ps.special_traces(pos, graph)]
+    for trace, cfgs in todo:
         for c in cfgs:
             hists = [case["hist"]] if "hist" in case else (["match"] + (["extend"] if len(trace) > 1 else []) + (["widen"] if c.get("width") else []))
             for hist in hists:
